@@ -37,7 +37,7 @@ TYPES: dict[str, dict[str, tuple[str, str]]] = {
         'RwN': ('N', 'a'), 'DgN': ('N', 'N'), 'DgX': ('N', 'N'), 'ClN': ('a', 'N'),
         'P': ('a', 'a'), 'k2': ('a', 'a'), 'IL': ('L', 'L'), 'kL': ('L', 'L'),
         'Dr': ('T', 'T'), 'Drt': ('T', 'T'), 'RwT': ('T', 'S'), 'ClT': ('S', 'T'),
-        'Bm': ('LM', 'LM'), 'Bmi': ('LM', 'LM'), 'Bv': ('LM', 'LV'), 'Bvt': ('LV', 'LM'),
+        'Bm': ('LM', 'LM'), 'Bmi': ('LM', 'LM'), 'Bv': ('LM', 'LV'), 'Bvt': ('LV', 'LM'), 'Dh': ('T', 'T'),
     },
     # move-axis operators in every spelling on a pytree whose leaves have different ranks (all dims 2, so every operator
     # maps the space to itself and any two compose); the inverse-pair rule must not be fooled by mixed-sign spellings
@@ -50,6 +50,8 @@ TYPES: dict[str, dict[str, tuple[str, str]]] = {
     'EXT': {
         'U': ('a', 'a'), 'V': ('a', 'a'), 'W': ('a', 'a'), 'K': ('a', 'a'), 'P': ('a', 'a'), 'I': ('a', 'a'),
         'G': ('a', 'b'), 'Gt': ('b', 'a'), 'Kb': ('b', 'b'), 'Ub': ('b', 'b'), 'Vb': ('b', 'b'),
+        # the dtype changes along the chain: 4 float16 inputs (8 bytes) -> 3 float32 outputs (12 bytes)
+        'Pw': ('h4', 'h3'), 'Dw': ('h3', 'b'), 'kh': ('h4', 'h4'),
     },
 }
 
@@ -183,6 +185,7 @@ def build(domain: str) -> dict:
             'P': P, 'k2': hom(2.0, a), 'IL': IdentityOperator(L), 'kL': hom(-2.0, L),
             'Dr': Dr, 'Drt': Dr.T, 'RwT': BlockRowOperator([R, R.T]), 'ClT': BlockColumnOperator([R.T, R]),
             # block products that cancel only through a rule inside the block (not through the `@` shortcut)
+            'Dh': BlockDiagonalOperator([HWPOperator(S), HWPOperator(S)]),   # parameter-free blocks that are not identities
             'Bm': BlockDiagonalOperator([M01, M01]), 'Bmi': BlockDiagonalOperator([M10, M10]), 'Bv': Bv, 'Bvt': Bv.T,
         }
     elif domain == 'AXT':
@@ -198,7 +201,9 @@ def build(domain: str) -> dict:
         from furax._base.rules import AbstractBinaryRule
 
         a, b = sds(2), sds(3)
-        spaces = {'a': a, 'b': b}
+        h4, h3 = jax.ShapeDtypeStruct((4,), jnp.float16), jax.ShapeDtypeStruct((3,), jnp.float16)
+        spaces = {'a': a, 'b': b, 'h4': h4, 'h3': h3}
+        from furax._base.diagonal import BroadcastDiagonalOperator
 
         @square
         class ToyScale(AbstractLinearOperator):
@@ -246,6 +251,9 @@ def build(domain: str) -> dict:
             'I': IdentityOperator(a), 'G': dense([[1.0, 2.0], [3.0, 5.0], [-1.0, 4.0]], a),
             'Gt': DenseBlockDiagonalOperator(arr([[1.0, 0.0, 2.0], [-1.0, 3.0, 1.0]]), b, 'ij,j->i'),
             'Kb': hom(-3.0, b), 'Ub': ToyU(2.0, b), 'Vb': ToyV(-1.0, b),
+            'Pw': IndexOperator(jnp.array([3, 0, 1]), in_structure=h4, out_structure=h3),
+            'Dw': BroadcastDiagonalOperator(arr([2.0, 4.0, -1.0]), axis_destination=0, in_structure=h3),
+            'kh': HomothetyOperator(jnp.asarray(2.0, jnp.float16), h4),
         }
     else:
         raise KeyError(domain)
